@@ -105,7 +105,7 @@ func c16Hooks(sr *sqlRoots, name string, hooks *absint.Hooks) {
 		if fr.Depth() != 0 || rc == nil {
 			return
 		}
-		where := core.Short(ret.String())
+		where := retLabel(ret)
 		if strings.HasPrefix(name, "lexer:") {
 			// A-span: a token written by this step lies inside the consumed span
 			if e.IsFreshCell(st, rc.Cur, a.Fields["sql.token.pos"]) && e.IsFreshCell(st, rc.Cur, a.Fields["sql.token.len"]) {
